@@ -618,7 +618,13 @@ func (p NewChannelReqPayload) MarshalBinary() ([]byte, error) {
 	// See Frequency Encoding in MAC Commands
 	// https://lora-developers.semtech.com/documentation/tech-papers-and-guides/physical-layer-proposal-2.4ghz/
 	if freq >= 2400000000 {
+		if p.Freq%200 != 0 {
+			return b, errors.New("lorawan: Freq must be a multiple of 200 for 2.4GHz frequencies")
+		}
 		freq = freq / 2
+	} else if freq/100 >= 12000000 {
+		// encoded values >= 12000000 are decoded using the 200Hz stepping
+		return b, errors.New("lorawan: Freq between 1.2GHz and 2.4GHz can not be encoded")
 	}
 
 	if freq/100 >= 16777216 { // 2^24
